@@ -132,3 +132,32 @@ def model_check(module_path, cfg_path, workdir, workers=8, timeout=900, xmx="8g"
     if re.search(r"Invariant \w+ is violated|Temporal properties were violated|Action property .* is violated|is violated", out):
         return McResult(False, gen, distinct, gen, 0, cov, out, wall)
     raise ToolError(f"TLC ended abnormally on {os.path.basename(module_path)}:\n{out[-3000:]}")
+
+
+def apalache_inductive(module_path, workdir, cinit="ConstInit", timeout=900):
+    """Apalache: Init => IndInv (length 0), IndInv /\\ Next => IndInv' (length 1 from IndInit), IndInv => Implied.
+    Returns dict(step -> 'ok' | 'error' | 'unavailable')."""
+    fresh_dir(workdir)
+    for f in os.listdir(os.path.dirname(module_path)):
+        if f.endswith(".tla"):
+            shutil.copy(os.path.join(os.path.dirname(module_path), f), workdir)
+    mod = os.path.basename(module_path)
+    res = {}
+    steps = [("init_implies_inv", ["--init=Init", "--inv=IndInv", "--length=0"]),
+             ("inv_is_inductive", ["--init=IndInit", "--inv=IndInv", "--length=1"]),
+             ("inv_implies_properties", ["--init=IndInit", "--inv=Implied", "--length=0"])]
+    for name, args in steps:
+        try:
+            p = run(["timeout", str(timeout), "apalache-mc", "check", f"--cinit={cinit}"] + args + [mod], cwd=workdir, check=False, timeout=timeout + 30)
+        except (ToolError, FileNotFoundError):
+            res[name] = "unavailable"
+            continue
+        out = p.stdout or ""
+        if "The outcome is: NoError" in out:
+            res[name] = "ok"
+        elif "The outcome is: Error" in out:
+            res[name] = "error"
+        else:
+            res[name] = "unavailable"
+    shutil.rmtree(os.path.join(workdir, "_apalache-out"), ignore_errors=True)
+    return res
